@@ -763,7 +763,44 @@ fn pos_main(env: &mut Env<VS>, args: Vec<Field>) -> BuiltinFuture<'_> {
     })
 }
 
+/// `jl TAG`: traces the shell's job list (without changing it) and the exit status of the
+/// preceding command, and writes the separator line `--TAG--` to standard output.
+fn jl_main(env: &mut Env<VS>, args: Vec<Field>) -> BuiltinFuture<'_> {
+    use yash_env::system::concurrency::WriteAll;
+    Box::pin(async move {
+        let tag = args.first().map(|f| f.value.clone()).unwrap_or_default();
+        let mut t = format!(
+            "jl {tag} st={} bang={} cur={:?} prev={:?} |",
+            env.exit_status.0,
+            env.jobs.last_async_pid().0,
+            env.jobs.current_job(),
+            env.jobs.previous_job()
+        );
+        for (i, j) in env.jobs.iter() {
+            t.push_str(&format!(
+                " {i};{};{:?};{};{};{}|",
+                j.pid.0, j.state, j.state_changed, j.job_controlled, j.name
+            ));
+        }
+        trace(pid_of(env), t);
+        let _ = env.system.write_all(Fd::STDOUT, format!("--{tag}--\n").as_bytes()).await;
+        env.exit_status.into()
+    })
+}
+
+/// `hang`: blocks until a signal terminates the process.
+fn hang_main(env: &mut Env<VS>, _args: Vec<Field>) -> BuiltinFuture<'_> {
+    Box::pin(async move {
+        trace(pid_of(env), "hang".into());
+        loop {
+            env.wait_for_signals().await;
+        }
+    })
+}
+
 pub fn register_probes(env: &mut Env<VS>) {
+    env.builtins.insert("jl", bi(jl_main));
+    env.builtins.insert("hang", bi(hang_main));
     env.builtins.insert("echo", bi(echo_main));
     env.builtins.insert("p", bi(p_main));
     env.builtins.insert("s", bi(s_main));
